@@ -142,6 +142,14 @@ def base_hyperv_chained():
     return data
 
 
+@functools.lru_cache(maxsize=None)
+def base_hyperv_stale():
+    """Two key tables with index 1: the active one (sequence 3, at 0x3000) listed first, a stale one (sequence 1, at 0x4000) after it."""
+    data, _meta = bhv.build(dict(HV_SPEC, tables={"1": {"seq": 3, "stale": {"seq": 1}, "stale_first": False}, "2": {"seq": 4}}))
+    assert data[0x3000:0x3006] == bytes.fromhex("020001000300") and data[0x4000:0x4006] == bytes.fromhex("020001000100")
+    return data
+
+
 ENV_SPEC = {"payload_len": 100, "payload_key": 5, "padding": 3, "key": bytes(range(32)).hex(), "iv": bytes(range(12)).hex(),
             "attrs": [[benv.T_BYTES, 0, "vmware.iv", "@iv"], [benv.T_STRING, 0, "vmware.keyInfo", "7e62cec5-6aef-4d7e-838b-cae32eefd251"],
                       [benv.T_STRING, 0, "vmware.cipherName", "AES-256-GCM"], [benv.T_BYTES, 0, "vmware.keyHash", "@keyhash"]], "aad": None}
@@ -277,6 +285,9 @@ def byte_gates():
         # the same gates for structures that are only reachable through a second, nested object table
         "hyperv.nested.object_table.signature": (base_hyperv_chained, 0x7000, 4, "<", lambda v: v == 0x01110001, open_hyperv),
         "hyperv.nested.key_table.signature": (base_hyperv_chained, 0x4000, 2, "<", lambda v: v == 2, open_hyperv),
+        # ... and for a superseded key table (same index, lower sequence number) listed behind the active one
+        "hyperv.stale.key_table.signature": (base_hyperv_stale, 0x4000, 2, "<", lambda v: v == 2, open_hyperv),
+        "qcow2.v2.crypt_method": (lambda: base_qcow2(version=2), 32, 4, ">", lambda v: v == 0, open_qcow2),
         "envelope.magic": (base_envelope, 0, 21, "<", lambda v: v == int.from_bytes(b"DataTransformEnvelope", "little"), open_envelope),
         "envelope.version": (base_envelope, 508, 4, "<", lambda v: v == 2, open_envelope),
         "envelope.aead_footer.version": (base_envelope, len(base_envelope()) - 4, 4, "<", lambda v: v == 1, open_envelope),
@@ -293,8 +304,8 @@ MAGIC_GATES = ["qcow2.magic", "vhdx.file_identifier", "vhdx.current_header", "vh
                "vhdx.metadata_table", "vdi.signature", "hds.signature.v1", "hds.signature.v2", "vmdk.kdmv.magic", "vmdk.cowd.magic",
                "vmdk.sesparse.magic", "vmdk.sesparse.magic.vmdk", "vmdk.descriptor-extent.magic", "envelope.magic.noverify", "hyperv.header.signature", "hyperv.replay_log.signature",
                "hyperv.object_table.signature", "hyperv.key_table.signature", "envelope.magic", "hyperv.nested.object_table.signature",
-               "hyperv.nested.key_table.signature", "vmdk.footer.magic"]
-VALUE_GATES = ["qcow2.version", "qcow2.cluster_bits", "qcow2.crypt_method", "qcow2.compression_type=zstd", "qcow2.compression_type>=2",
+               "hyperv.nested.key_table.signature", "vmdk.footer.magic", "hyperv.stale.key_table.signature"]
+VALUE_GATES = ["qcow2.version", "qcow2.cluster_bits", "qcow2.crypt_method", "qcow2.v2.crypt_method", "qcow2.compression_type=zstd", "qcow2.compression_type>=2",
                "hyperv.header.version", "envelope.version", "envelope.aead_footer.version", "envelope.version.noverify",
                "envelope.aead_footer.version.noverify"]
 SEMANTIC_GATES = ["qcow2.data_file_bit", "qcow2.extl2_small_clusters", "qcow2.backing_without_object", "qcow2.data_file_without_object", "vhdx.missing_region",
@@ -486,7 +497,13 @@ def semantic(spec, out):
                 t = spec["name"] if spec["name"] not in ("Compressed", "Plain") else "Other"
                 with open(os.path.join(root, "DiskDescriptor.xml"), "w") as f:
                     f.write(desc(t))
-                err = lib(lambda: HDD(Path(root)).open())[1]
+                hobj, err = lib(HDD, Path(root))
+                if err is None:
+                    err = lib(hobj.open)[1]
+                    # asked again on the same object, the answer is the same (nothing half-opened is kept and served)
+                    again = lib(hobj.open)[1]
+                    if err is not None and again is None:
+                        out.fail("accepted|hdd.image_type.second-open", "a second open() on the same HDD object served the refused image")
             else:
                 os.remove(os.path.join(root, "DiskDescriptor.xml"))
                 err = lib(lambda: HDD(Path(root)))[1]
